@@ -116,8 +116,9 @@ def run(ctx, chk):
     def names(ps):
         return [p_ if isinstance(p_, str) else ":".join(str(x) for x in p_[1:3]) for p_ in ps] if isinstance(ps, list) else ps
     for full in (True, False):
-        inst = "Module::disassemble(%s)" % ("module with header, one instruction per section, a function with parameter and labelled block" if full
-                                            else "module without header, function without definition/parameters, block without label")
+        inst = "Module::disassemble(%s)" % ("module with header, one instruction per section, a complete function, a function without definition "
+                                            "but with parameters, an unlabelled and an empty block, a function with a definition only" if full
+                                            else "the same module without header and memory model")
         try:
             got = walkx.module_disassemble(ctx, full)
         except Anchor as ex:
@@ -126,8 +127,8 @@ def run(ctx, chk):
         want = walkx.expected_module(full)
         chk.check(R2, got == want, inst, "renders %s, expected %s (OpConstant through the typed renderer after all of types_global_values was tracked, "
                   "OpExtInst through the named renderer after all imports were tracked)" % (names(got), names(want)), WM, key="C07:walk", sample=names(got) if full else None)
-        for ty in ("Function", "Block"):
-            inst = "%s::disassemble(%s)" % (ty, "full" if full else "without definition/parameters/label")
+        for ty in (("Function", "Block") if full else ()):
+            inst = "%s::disassemble(complete %s)" % (ty, ty.lower())
             try:
                 got = walkx.container_disassemble(ctx, ty, full)
             except Anchor as ex:
